@@ -23,7 +23,7 @@ META = {
     "arrays have a distinct symbol per entry and dependencies in several signature orders; every value entry must equal the "
     "reference in which each function receives the values stored under its own name, weights are indexed in signature order and "
     "beta multiplies the continuation exactly once per period (z3, as C01).",
-    "bounds": "CrossHair: 3 pooled variables x 3 roles, 5 pooled functions, timeout 200 s; structure: all templates of vf/templates.py, "
+    "bounds": "CrossHair: a real Model object, 3 pooled variables x 3 roles, 6 pooled functions (one consumes the output of a transition function), timeout 200 s; structure: all templates of vf/templates.py, "
     "all orders of 1-3 dependencies out of (state, choice, period); routing: TL (also with a symbolic transition parameter), TK, TE in 4 "
     "dependency orders, TA, T = 2-3",
     "outside": "models outside the template family",
